@@ -169,6 +169,9 @@ def judge(ctx, case: Dict[str, Any], o: Dict[str, Any], remeasure) -> None:
         if case["exit"] in ("cancel", "fail_after"):
             mech += "_after_cancellation"
         ctx.violation(mech, f"{o['fd_delta']} additional open file descriptors after exit: {o.get('fd_new')}", case, o)
+    elif o.get("fd_new_at_exit") and o.get("entered"):
+        ctx.violation("fd_open_when_context_left", f"descriptors still open at the moment the context was left (released only "
+                      f"by a later turn of the event loop): {o.get('fd_new_at_exit')}", case, o)
     elif o.get("fd_delta_before_gc", 0) > 0:
         ctx.violation("fd_closed_only_by_garbage_collection", f"{o['fd_delta_before_gc']} additional descriptors were still "
                       f"open 0.3 s after the context was left and were only closed by a garbage collection: "
